@@ -302,6 +302,30 @@ def C01(g, tier):
             h = g.ohg()
         for bk in BACKENDS:
             yield sx(["ohg_compose", bk, f, h]), merges(f, h)
+    # right operand discrete with equal, non-injective legs (looks like an identity but merges),
+    # and identities of the right arity but wrong labels (must be refused)
+    for _ in range(N(tier, 150, 1500)):
+        f = g.ohg()
+        _, tt = ohg_types(f)
+        k = len(tt)
+        for bk in BACKENDS:
+            if k:
+                # legs k -> k, equal, constant on label classes
+                leg = []
+                for i in range(k):
+                    c = [j for j in range(k) if tt[j] == tt[i]]
+                    leg.append(g.r.choice(c))
+                w = list(tt)
+                sp = [[leg, k], [leg, k], [[[[], 1], [[], k]], [[[], 1], [[], k]], w, []]]
+                yield sx(["ohg_compose", bk, f, sp]), len(set(leg)) < k
+                yield sx(["ohg_compose", bk, sp, f if ohg_types(f)[0] == [w[i] for i in leg] else sp]), True
+            wrong = [1 - t if t in (0, 1) else 0 for t in tt]
+            if g.r.random() < 0.5 and k:
+                wrong = list(tt)
+                wrong[g.r.randrange(k)] = 1 - wrong[g.r.randrange(k)] if wrong[0] in (0, 1) else 0
+            idw = [[list(range(k)), k], [list(range(k)), k], [[[[], 1], [[], k]], [[[], 1], [[], k]], wrong, []]]
+            yield sx(["ohg_compose", bk, f, idw]), k > 0
+            yield sx(["ohg_compose", bk, idw, g.ohg_with_source(wrong) if g.r.random() < 0.5 else f]), k > 0
     # chains collapsing many nodes into one: spiders with non-injective legs
     for _ in range(N(tier, 150, 1500)):
         n = g.r.randint(1, 4)
@@ -356,6 +380,16 @@ def C03(g, tier):
         qa, qb = ohg_types(q)
         yield sx(["law", bk, ["scomp", ["stens", S(p), S(q)], ["stwist", pb, qb]],
                   ["scomp", ["stwist", pa, qa], ["stens", S(q), S(p)]]]), len(p[2][3]) + len(q[2][3]) > 0
+        # a discrete middle operand with equal non-injective legs (merges wires; not an identity)
+        _, ft = ohg_types(f)
+        kk = len(ft)
+        if kk:
+            leg = [g.r.choice([j for j in range(kk) if ft[j] == ft[i]]) for i in range(kk)]
+            sp = [[leg, kk], [leg, kk], [[[[], 1], [[], kk]], [[[], 1], [[], kk]], list(ft), []]]
+            h3 = g.ohg_with_source([ft[i] for i in leg])
+            yield sx(["law", bk, ["scomp", ["scomp", S(f), S(sp)], S(h3)], ["scomp", S(f), ["scomp", S(sp), S(h3)]]]), len(set(leg)) < kk
+            yield sx(["law", bk, ["scomp", ["stens", S(f), S(f2)], ["stens", S(sp), S(h2)]],
+                      ["stens", ["scomp", S(f), S(sp)], ["scomp", S(f2), S(h2)]]]), len(set(leg)) < kk
         # self-inverse and hexagons
         x, y, z = g.nats(g.size(3), 1), g.nats(g.size(3), 1), g.nats(g.size(3), 1)
         yield sx(["law", bk, ["scomp", ["stwist", x, y], ["stwist", y, x]], ["sid", x + y]]), len(x) > 0 and len(y) > 0
@@ -461,6 +495,15 @@ def C05(g, tier):
         lf = g.lohg(consistent=True)
         yield sx(["term", "vec", ["to_strict", ["l", lf]]]), True
         yield sx(["term", "vec", ["from_strict", ["s", f1]]]), True
+        # functor and optic applications (deep well-formedness of the images is checked)
+        if g.r.random() < 0.5:
+            Fq = ftable(g)
+            lq = g.lohg(maxar=2, ne=g.size(2), nn=g.size(3))
+            yield sx(["term", "vec", ["lfmap", Fq, ["l", lq]]]), True
+            yield sx(["term", "vec", ["lfmap_native", Fq, ["l", lq]]]), True
+            Pq = otable(g)
+            yield sx(["term", "vec", ["optic", Pq, ["l", lq]]]), True
+            yield sx(["term", "vec", ["optic_adapted", Pq, ["l", lq]]]), True
         # coequalize_vertices with a surjection
         nn = len(f[2][2])
         if nn:
@@ -639,7 +682,7 @@ def C10(g, tier):
 # --------------------------------------------------------------------------- functors
 def ftable(g, labels=2, elabels=3):
     obj = [g.nats(g.r.choice([0, 1, 1, 2, 3]), 2) for _ in range(labels)]
-    kind = [g.r.choice([0, 0, 1, 2, 3]) for _ in range(elabels)]
+    kind = [g.r.choice([0, 0, 1, 2, 3, 4, 4]) for _ in range(elabels)]
     return [obj, kind, g.r.choice([0, 3])]
 
 
@@ -1057,5 +1100,29 @@ def C20(g, tier):
             yield sx(["eval", bk, e, inp]), True
 
 
+VEC_ONLY = {"ics_iter_slices", "ops_iter"}
+
+
+def C20_generic(g, tier):
+    """every back-end-generic operation of the other streams, re-run on the adversarial ArrayKind"""
+    for fn in (C06, C08, C05, C04, C17, C18, C15):
+        n = 0
+        for text, nt in fn(g, "quick"):
+            op, _, rest = text[1:].partition(" ")
+            if op in VEC_ONLY or op in ("term", "law") or op.startswith("l") or op.startswith("sfa") or op == "hg_empty":
+                continue
+            if rest.startswith("vec ") or rest.startswith("adv "):
+                continue
+            n += 1
+            if tier == "quick" and n % 3:
+                continue
+            yield "(" + op + " adv " + rest, nt
+
+
+def C20_all(g, tier):
+    yield from C20(g, tier)
+    yield from C20_generic(g, tier)
+
+
 ALL = {f"C{i:02d}": fn for i, fn in enumerate(
-    [C01, C02, C03, C04, C05, C06, C07, C08, C09, C10, C11, C12, C13, C14, C15, C16, C17, C18, C19, C20], start=1)}
+    [C01, C02, C03, C04, C05, C06, C07, C08, C09, C10, C11, C12, C13, C14, C15, C16, C17, C18, C19, C20_all], start=1)}
